@@ -560,7 +560,11 @@ class Translator:
             raise Unsupported(f"{rel}:{node.lineno} {qual}: **kwargs / keyword-only parameters")
         params = [p.arg for p in a.args]
         for d in node.decorator_list:
-            self.check_decorator(rel, qual, node, d)
+            try:
+                self.check_decorator(rel, qual, node, d)
+            except Unsupported:
+                info["failed"] = True
+                raise
         info["has_self"] = bool(cls is not None and params and params[0] == "self")
         # a method that reads / assigns attributes of `self` (directly or through another method of the class) takes the
         # instance as a first argument `v_self` and returns (result, instance after the call)
